@@ -115,6 +115,20 @@ def serviceQuery (cache : List Rec) (now : Int) (qu : Bool) : List String → Hi
     | (none, h1) => serviceQuery cache now qu rest h1
     | (some o, h1) => (o :: (serviceQuery cache now qu rest h1).1, (serviceQuery cache now qu rest h1).2)
 
+/-- `questions_with_known_answers[question] = known_answers` (`browser.py:275`): the questions are collected in a dict keyed by
+`DNSQuestion` (C20: lower-cased name, type, class).  A second question of the same key — the type set holds two spellings of one
+type — replaces the value and keeps the first key object. -/
+def dictPut (d : List QOut) (o : QOut) : List QOut :=
+  if d.any (fun x => x.q.beq lower o.q) then
+    d.map (fun x => if x.q.beq lower o.q then { x with known := o.known, wire := o.wire } else x)
+  else d ++ [o]
+
+/-- `generate_service_query` up to the grouping: the per-type loop (`serviceQuery`), its questions collected in the dict.
+Under QM a second spelling is already suppressed by the first's history entry; under QU both pass the loop and the dict merges
+them into one question.  (`serviceQuery` itself — one entry per loop turn — is what C15's totality argument runs over: a superset.) -/
+def serviceQuestions (cache : List Rec) (now : Int) (qu : Bool) (types : List String) (h : History) : List QOut × History :=
+  ((serviceQuery lower cache now qu types h).1.foldl (dictPut lower) [], (serviceQuery lower cache now qu types h).2)
+
 /-! ### bucket grouping (`_group_ptr_queries_with_known_answers`), sizes given -/
 
 /-- a bucket: accumulated size estimate and the questions put into it (in insertion order) -/
@@ -143,6 +157,32 @@ them) reach the loop that records; there a QM question is recorded with the know
 query — before and independently of `_answer_question`.  Not modelled: `known` is the union over the non-probe packets. -/
 def responderHears (canAnswer : Bool) (h : History) (q : Question) (now : Int) (known : List Rec) : History :=
   if canAnswer && !q.unique then h.add lower q now known else h
+
+/-- one packet of a (possibly multi-packet, TC) query as `async_response` sees it: whether it is a probe (`msg.is_probe()`: it
+carries authority records), its questions — each with whether the host has an answer strategy for it (`_get_answer_strategies`
+is non-empty: the registry's business, C03) — and every record `msg.answers()` yields (answer, authority and additional sections) -/
+structure HeardPacket where
+  probe : Bool
+  questions : List (Question × Bool)
+  records : List Rec
+  deriving Repr, Inhabited
+
+/-- `DNSRRSet(answers).lookup_set()`: the records as a set (first occurrence kept) -/
+def dedupRecs : List Rec → List Rec
+  | [] => []
+  | r :: rs => r :: (dedupRecs rs).filter (fun x => !(r.beq lower x))
+
+/-- `answers.extend(msg.answers())` for every packet that is **not a probe** (`query_handler.py:321-325`): a probe's authority
+records are what the prober proposes, not what it knows -/
+def heardKnown (pkts : List HeardPacket) : List Rec :=
+  dedupRecs lower ((pkts.filter (fun p => !p.probe)).flatMap (·.records))
+
+/-- `async_response` as far as the question history goes, for a whole assembled query: every question of every packet the host
+has a strategy for is recorded — **that question**, not the message's first — if it is QM, with the union of the known answers
+of the non-probe packets, at `now` (`msgs[-1].now`: the arrival time of the last packet).  With no strategy at all the function
+returns early; the fold then changes nothing either. -/
+def hearQuery (h : History) (pkts : List HeardPacket) (now : Int) : History :=
+  (pkts.flatMap (·.questions)).foldl (fun h qc => responderHears lower qc.2 h qc.1 now (heardKnown lower pkts)) h
 
 /-! ### service-info lookup: `_add_question_with_known_answers`, `_generate_request_query` -/
 
